@@ -7,7 +7,7 @@ from . import common as C
 ID = "C05"
 LEVEL = "exploration"
 RULE = ("Random OCP specifications with 1-5 objective terms built from at_t0/at_tf/sum/sum(include_last)/"
-        "integral(grid='control')/integral, combined linearly and non-linearly with T, t0, global parameters and "
+        "integral(grid='control')/integral (also of increments next(e)-e), combined linearly and non-linearly with T, t0, global parameters and "
         "variables; integrands depend on states, controls, algebraics, per-interval quantities and time.  Every method "
         "(MultipleShooting, SingleShooting with rk/expl_euler/set_next, DirectCollocation degree 1..5 radau/legendre) x "
         "N, M x every grid class x fixed/free/parametric horizon.  f(w) is evaluated at K random decision vectors and "
@@ -55,6 +55,14 @@ def gen_cases(rng, tier):
                     spec["objective"] = spec["objective"][:3] + [[grid, [fn, a]], ["*", ["c", ocpgen.rnd(rng, 0.5, 2.0)],
                                                                                   [grid, [fn, b_]]]]
                     break
+        if rng.random() < 0.2:
+            # increments: sum / left sum over k of a quantity shifted by one interval (the last summand reads the
+            # final node: states and include_last quantities have their own value there)
+            from ..gen import expr as E
+            sigl = ocpgen.signal_leaves(spec)
+            inner = ["+", E.rand_expr(rng, sigl, depth=1), rng.choice(sigl)]
+            grid = rng.choice(["sum", "sum", "intc"])
+            spec["objective"] = spec["objective"][:4] + [[grid, ["sq", ["-", ["off", inner, 1], inner]]]]
         tap = (rng.random() < 0.2) and spec["method"].get("intg") in (None, "rk", "expl_euler")
         if tap:
             spec["solver_options"] = {"ipopt.max_iter": 0, "ipopt.print_level": 0, "print_time": False,
